@@ -53,3 +53,42 @@ func specAssert(b bool) {
 //@   requires r.addrPolicy != nil && r.addrPolicy.Config != nil
 //@   ensures ret == spec_shouldStore(r)
 //@   serves C05 C01
+
+// ---------------------------------------------------------------------------------------------
+// C04: mailbox naming is canonical.
+
+//@ pred spec_mbChar(c byte) bool = ('a' <= c && c <= 'z') || ('0' <= c && c <= '9') || strings.IndexByte("!#$%&'*+-=/?^_`.{|}~", c) >= 0
+//@ pred spec_allMb(s string) bool = forall k int :: { s[k] } 0 <= k && k < len(s) ==> spec_mbChar(s[k])
+//@ pred spec_noPlus(r string) bool = forall k int :: { r[k] } 0 <= k && k < len(r) ==> r[k] != '+'
+//@ pred spec_isPlusPrefix(r string, s string) bool =
+//@     len(r) <= len(s) && r == s[:len(r)] && spec_noPlus(r) && (len(r) == len(s) || s[len(r)] == '+')
+
+// parseMailboxName: accepted exactly when non-empty and every byte of the lower-cased local part is
+// a mailbox character; the name is the lower-cased local part up to the first '+'.
+//@ func parseMailboxName
+//@   ensures (err == nil) == (len(localPart) > 0 && spec_allMb(strings.ToLower(localPart)))
+//@   ensures err == nil ==> spec_isPlusPrefix(result, strings.ToLower(localPart))
+//@   ensures err != nil ==> result == ""
+//@   loop 1: invariant 0 <= i && i <= len(result) && result == strings.ToLower(localPart) && err == nil
+//@   loop 1: invariant (len(invalid) == 0) == (forall k int :: { result[k] } 0 <= k && k < i ==> spec_mbChar(result[k]))
+//@   loop 1: invariant vcFresh(invalid)
+//@   loop 1: decreases len(result) - i
+//@   serves C04
+
+//@ pred spec_domChar(c byte) bool = ('a' <= c && c <= 'z') || ('A' <= c && c <= 'Z') || ('0' <= c && c <= '9') || c == '_' || c == '-' || c == '.'
+//@ pred spec_bracketed(d string) bool = len(d) >= 4 && d[0] == '[' && d[len(d)-1] == ']'
+//@ pred spec_allDom(d string, n int) bool = forall k int :: { d[k] } 0 <= k && k < n ==> spec_domChar(d[k])
+
+// ValidateDomainPart: an accepted domain has 1..255 bytes and is either a bracketed literal or
+// consists of letters, digits, '_', '-' and '.' only; in particular it never contains a wildcard
+// character (which stringutil.MatchWithWildcards relies on for its input argument).
+//@ func ValidateDomainPart
+//@   pure
+//@   ensures ret ==> 1 <= len(domain) && len(domain) <= 255
+//@   ensures ret && !spec_bracketed(domain) ==> spec_allDom(domain, len(domain))
+//@   ensures ret ==> forall k int :: { domain[k] } 0 <= k && k < len(domain) ==> domain[k] != '*' && domain[k] != '?'
+//@   loop 1: invariant 0 <= ridx && ridx <= len(domain) && len(in_domain) >= 1 && !spec_bracketed(in_domain)
+//@   loop 1: invariant domain == in_domain || domain == in_domain + "."
+//@   loop 1: invariant spec_allDom(domain, ridx)
+//@   loop 1: decreases len(domain) - ridx
+//@   serves C04 C05
